@@ -22,7 +22,8 @@ type table struct {
 	src []byte // what writers pass to Write (a separate copy)
 }
 
-var tables [8]*table
+// slots 0-7: streams 0-3 of the main phase; slots 8-9: the sacrificial sessions of the prelude (stream index 4)
+var tables [10]*table
 
 // tab returns the table of (stream, dir) covering at least n+tableGuard bytes.
 func tab(stream, dir, n int) *table {
